@@ -16,6 +16,7 @@ import os
 import shutil
 import sys
 import time
+import zlib
 from fractions import Fraction
 
 from click.testing import CliRunner
@@ -47,7 +48,7 @@ def cli_args(a, d):
     args = ['generate-input', '-d', d,
             '-s', ','.join('x'.join(str(x) for x in s) for s in a['sizes']),
             '--decoder_class', v['decoder'], '--bias', a['bias'],
-            '--eta', ','.join(eta_str(e, len(a['sizes']) + len(a['etas']) + len(a['label']) + j)
+            '--eta', ','.join(eta_str(e, zlib.crc32(json.dumps(a, sort_keys=True, default=str).encode()) // 7 + j)
                               for j, e in enumerate(a['etas'])),
             '--code_class', v['code'], '--noise_class', 'PauliErrorModel',
             '-m', v['method']]
